@@ -10,6 +10,24 @@ from .common import pmap, result
 from .C01 import _cls
 from . import docgen
 _S = {}
+XS = 'xmlns:xs="http://www.w3.org/2001/XMLSchema"'
+# second template: the children of the root are LOCAL declarations that share their names with global elements of other types, a group
+# reference and a substitution member - the declaration governing a streamed chunk must be the one full loading uses
+SCHEMA2 = f'''<xs:schema {XS} elementFormDefault="qualified" targetNamespace="urn:t" xmlns:t="urn:t">
+ <xs:element name="code" type="xs:int"/><xs:element name="label" type="xs:date"/>
+ <xs:element name="head" type="xs:token"/><xs:element name="member" type="xs:NCName" substitutionGroup="t:head"/>
+ <xs:element name="r"><xs:complexType><xs:sequence>
+   <xs:element name="code" maxOccurs="unbounded"><xs:simpleType><xs:restriction base="xs:string"><xs:pattern value="[A-Z]{{2}}[0-9]*"/></xs:restriction></xs:simpleType></xs:element>
+   <xs:element name="label" type="xs:string" minOccurs="0" maxOccurs="unbounded"/>
+   <xs:element ref="t:head" minOccurs="0" maxOccurs="unbounded"/>
+ </xs:sequence></xs:complexType></xs:element></xs:schema>'''
+
+
+def gen2(rng):
+    parts = [f'<t:code>{rng.choice(["AB12", "XY", "12", "ab1"])}</t:code>' for _ in range(rng.randrange(1, 4))]
+    parts += [f'<t:label>{rng.choice(["hello", "2020-01-01", ""])}</t:label>' for _ in range(rng.randrange(0, 3))]
+    parts += [rng.choice(['<t:head>tok en</t:head>', '<t:member>nc</t:member>', '<t:member>1 bad</t:member>']) for _ in range(rng.randrange(0, 3))]
+    return '<t:r xmlns:t="urn:t">' + ''.join(parts) + '</t:r>'
 
 
 def stream(res):
@@ -20,9 +38,9 @@ def stream(res):
 
 
 def eval_doc(args):
-    ver, doc = args
+    ver, doc = args[:2]; which = args[2] if len(args) > 2 else 1
     import xmlschema
-    s = _S.get(ver) or _S.setdefault(ver, _cls(ver)(docgen.SCHEMA))
+    s = _S.get((ver, which)) or _S.setdefault((ver, which), _cls(ver)(docgen.SCHEMA if which == 1 else SCHEMA2))
     problems = []; reported = []
     try:
         e0 = [(e.reason, type(e).__name__) for e in s.iter_errors(doc)]
@@ -34,7 +52,9 @@ def eval_doc(args):
         d1 = docgen.materialise(s.decode(xmlschema.XMLResource(doc, lazy=1), validation='lax')[0])
         if d0 != d1:
             def strip(d, lvl=0):
-                if isinstance(d, dict): return {k: strip(v, lvl + 1) for k, v in d.items() if not (lvl >= 1 and k.startswith('@xmlns'))}
+                if isinstance(d, dict):
+                    x = {k: strip(v, lvl + 1) for k, v in d.items() if not (lvl >= 1 and k.startswith('@xmlns'))}
+                    return x['$'] if lvl >= 1 and set(x) == {'$'} else x
                 if isinstance(d, list): return [strip(v, lvl) for v in d]
                 return d
             if strip(d0) == strip(d1): reported.append('KNOWN:C06-lazy-decode-drops-nested-xmlns')
@@ -63,8 +83,10 @@ def run(tier, seed, open_findings):
         d = d.replace('<t:sub ', '<t:sub xmlns:x%d="urn:x" ' % i, 1).replace('<t:item ', '<t:item xmlns:y="urn:y" ', 1).replace('<t:name>', '<t:name xmlns:z="urn:z">', 1)
         docs.append(d)
     jobs = [(ver, d) for d in docs for ver in ('1.0', '1.1')]
+    docs2 = [gen2(rng) for _ in range(n // 3)]
+    jobs += [(ver, d, 2) for d in docs2 for ver in ('1.0', '1.1')]
     res = pmap(eval_doc, jobs)
-    fails = [dict(case=dict(doc=r['doc'], ver=r['ver']), observed=r['problems'], required='lazy = eager') for r in res if r['problems']]
+    fails = [dict(case=dict(doc=r['doc'], ver=r['ver'], template=2 if '<t:code>' in r['doc'] or '<t:r xmlns:t="urn:t"><t:' in r['doc'] and 't:item' not in r['doc'] else 1), observed=r['problems'], required='lazy = eager') for r in res if r['problems']]
     known = {}
     for r in res:
         if 'KNOWN:C06-lazy-decode-drops-nested-xmlns' in r['reported']:
@@ -76,5 +98,5 @@ def run(tier, seed, open_findings):
 
 
 def replay(check_name, case):
-    r = eval_doc((case['ver'], case['doc']))
+    r = eval_doc((case['ver'], case['doc'], case.get('template', 1)))
     return dict(ok=not r['problems'] and not any(x.startswith('KNOWN') for x in r['reported']), observed=r['problems'] or r['reported'], required='lazy = eager')
